@@ -22,6 +22,7 @@ EXPLANATION = (
     'in a try whose catch-all handler rewinds the stream (seek(0)) and re-raises; the digest pre-reader rewinds on its normal path. Table rules: the stream '
     'wrapper classes define, as pure delegations, every method the adapters call on a stream; B2 decorator order [requires_auth, backoff_reauth]; the re-auth '
     'wrapper retries through itself. Rules C12.R1-R4.'
+    ' Added with the seeded-defect rounds: body reads of streaming responses are transport calls, callbacks given to backoff cannot fail on transport errors, rewinding handlers of coroutines catch BaseException.'
 )
 NOT_DECIDED = 'that the bytes delivered are exact for every fault position (needs fault injection); the wall-clock bound of the retries'
 TRUSTED = ['the backoff library honours max_tries', "tqdm's CallbackIOWrapper delegates unknown attributes (third party)", 'CPython ast']
